@@ -348,31 +348,42 @@ def stdNameBad (o : Options) (isReq : Bool) (s : Service) (m : Rpc) : Bool :=
   let e2 := toPascalCase s.name ++ e1
   name != e1 && name != e2
 
-/-- All methods of the non-import files (FullNameToMethod), with file and source path. -/
-def allRpcs (w : Schema) : List (File × List Nat × Rpc) :=
-  (nonImport w).flatMap fun f => (fileRpcs f).map fun (p, _, m) => (f, p, m)
+/-- One row per method of the non-import files (FullNameToMethod): what RPC_REQUEST_RESPONSE_UNIQUE
+    reads of it — the file path and source path it reports at, request and response type. -/
+structure RpcRow where
+  file : Str
+  path : List Nat
+  inType : Str
+  outType : Str
+  deriving Repr, DecidableEq
 
-def rpcUnique (o : Options) (w : Schema) : List Annotation :=
-  let r := Rule.RPC_REQUEST_RESPONSE_UNIQUE
-  let ms := allRpcs w
+def rpcTable (w : Schema) : List RpcRow :=
+  (nonImport w).flatMap fun f => (fileRpcs f).map fun (p, _, m) => ⟨f.path, p, m.inType, m.outType⟩
+
+def RpcRow.ann (x : RpcRow) : Annotation := ⟨.RPC_REQUEST_RESPONSE_UNIQUE, x.file, x.path⟩
+
+/-- RPC_REQUEST_RESPONSE_UNIQUE on the method table. -/
+def rpcUniqueT (o : Options) (ms : List RpcRow) : List Annotation :=
   let aReq := o.rpcAllowGoogleProtobufEmptyRequests
   let aResp := o.rpcAllowGoogleProtobufEmptyResponses
   let same :=
     if o.rpcAllowSameRequestResponse then [] else
-    ms.flatMap fun (f, p, m) =>
-      if m.inType == m.outType && !(m.inType == emptyType && aReq && aResp) then [ann r f p] else []
-  let types := dedup (ms.flatMap fun (_, _, m) => [m.inType, m.outType])
+    ms.flatMap fun x =>
+      if x.inType == x.outType && !(x.inType == emptyType && aReq && aResp) then [x.ann] else []
+  let types := dedup (ms.flatMap fun x => [x.inType, x.outType])
   let multi := types.flatMap fun t =>
-    let users := ms.filter fun (_, _, m) => m.inType == t || m.outType == t
+    let users := ms.filter fun x => x.inType == t || x.outType == t
     if users.length ≤ 1 then [] else
     if t == emptyType && (aReq || aResp) then
       if aReq && aResp then [] else
-      let reqs := users.filter fun (_, _, m) => m.inType == emptyType
-      let resps := users.filter fun (_, _, m) => m.outType == emptyType
-      (if !aReq && reqs.length > 1 then reqs.map (fun (f, p, _) => ann r f p) else []) ++
-      (if !aResp && resps.length > 1 then resps.map (fun (f, p, _) => ann r f p) else [])
-    else users.map fun (f, p, _) => ann r f p
+      let reqs := users.filter fun x => x.inType == emptyType
+      let resps := users.filter fun x => x.outType == emptyType
+      (if !aReq && reqs.length > 1 then reqs.map RpcRow.ann else []) ++
+      (if !aResp && resps.length > 1 then resps.map RpcRow.ann else [])
+    else users.map RpcRow.ann
   same ++ multi
+
+def rpcUnique (o : Options) (w : Schema) : List Annotation := rpcUniqueT o (rpcTable w)
 
 /-- package of a file path among `files` (FilePathToFile lookup). -/
 def findFile (files : List File) (path : Str) : Option File := files.find? (fun f => f.path == path)
